@@ -18,8 +18,10 @@ class Workload:
 
 
 def build(rng, casedir, index, tier, stable=None, size=None, nrec=None, tags="safe", offsets="any",
-          mode=None, name_space=False, long_lines=False):
+          mode=None, name_space=None, long_lines=False):
     w = Workload()
+    if name_space is None:  # GraphAligner style read names ("name description") in a fifth of the files
+        name_space = rng.random() < 0.2
     size = size or rng.choice(["small", "small", "medium"])
     g = rgfa.gen_rgfa(rng, size=size)
     w.g = g
